@@ -123,6 +123,26 @@ func (api API) handlePatchResourceRequest(ctx context.Context, r *http.Request, 
 	return nil
 }
 
+// splitMediaRanges splits the value of an Accept header field into its comma-separated media
+// ranges. Commas inside quoted parameter values do not separate.
+func splitMediaRanges(s string) []string {
+	var ret []string
+	inQuotes := false
+	start := 0
+	for i := 0; i < len(s); i++ {
+		switch {
+		case inQuotes && s[i] == '\\':
+			i++
+		case s[i] == '"':
+			inQuotes = !inQuotes
+		case s[i] == ',' && !inQuotes:
+			ret = append(ret, s[start:i])
+			start = i + 1
+		}
+	}
+	return append(ret, s[start:])
+}
+
 type response struct {
 	Document types.ResponseDocument
 	Headers  map[string]string
@@ -140,7 +160,12 @@ func (api API) executeRequest(r *http.Request) *response {
 	// If the profile parameter is received, a server SHOULD attempt to apply any requested
 	// profile(s) to its response. A server MUST ignore any profiles that it does not recognize.
 	isAcceptable := false
-	for _, accept := range r.Header.Values("Accept") {
+	var accepts []string
+	for _, header := range r.Header.Values("Accept") {
+		// A header field value is a comma-separated list of media ranges.
+		accepts = append(accepts, splitMediaRanges(header)...)
+	}
+	for _, accept := range accepts {
 		mediaType, params, err := mime.ParseMediaType(accept)
 		if mediaType != "application/vnd.api+json" || err != nil {
 			continue
